@@ -508,6 +508,14 @@ func main() {
 	sharedCache()
 	largeModule()
 	recompile()
+	{
+		var ps []*Program
+		for i := 0; i < 12; i++ {
+			r := rand.New(rand.NewSource(seed*31 + int64(i)))
+			ps = append(ps, genProgram(r, genOpts{maxNodes: 8 + r.Intn(20), maxDepth: 3 + r.Intn(8), failProb: []float64{0, 0.1, 0.3}[r.Intn(3)], spine: i%3 == 0}))
+		}
+		multiStage(ps)
+	}
 	randomPrograms(seed+77, n/2, true)
 	rep.Note("engine variants tied on this run: interpreter=%+v compiler=%+v", *variants["interpreter"], *variants["compiler"])
 	rep.Note("GOMAXPROCS=%d", runtime.GOMAXPROCS(0))
